@@ -247,6 +247,54 @@ def run_job(job):
                         mode = ""
                     spec.append((ri, sp, a, b, mode))
                 run_case(res, w, home, roots, snaps, spec, trace=(qi % 4 == 0))
+        elif job["kind"] == "nonutf8":
+            # names that are not valid UTF-8 (legal on Linux): rows are printed lossily, so entries can only be counted:
+            # the multiset of lossy spellings must equal the multiset of the entries' lossy spellings
+            base = os.path.join(w, "nu").encode()
+            os.mkdir(base)
+            made = []
+            dirs = [b""]
+            # two sibling directories whose names differ only in invalid bytes (identical when printed lossily), both populated
+            pa, pb = rng.choice([(b"d\xfe", b"d\xff"), (b"x\x80", b"x\x81"), (b"\xe9t\xe9", b"\xe8t\xe8")])
+            for pd in (pa, pb):
+                os.mkdir(os.path.join(base, pd))
+                os.mkdir(os.path.join(base, pd, b"inner"))
+                for leaf in (pd + b"/one", pd + b"/inner/two"):
+                    with open(os.path.join(base, leaf), "wb"):
+                        pass
+                made.extend([pd, pd + b"/inner", pd + b"/one", pd + b"/inner/two"])
+                dirs.append(pd)
+            for i in range(rng.randint(4, 14)):
+                parent = rng.choice(dirs)
+                nm = rng.choice([b"d\xfe", b"d\xff", b"f\xe9", b"\xff\xfe", b"ok", b"\xc3\x28", b"a\x80b", b"z\xf0\x9f", b"plain", b"\xe2\x82"]) + (b"%d" % i if rng.random() < 0.3 else b"")
+                p = nm if not parent else parent + b"/" + nm
+                if p in made:
+                    continue
+                made.append(p)
+                if rng.random() < 0.5 and p.count(b"/") < 3:
+                    os.mkdir(os.path.join(base, p))
+                    dirs.append(p)
+                else:
+                    with open(os.path.join(base, p), "wb"):
+                        pass
+            for a, b, mode in ((None, None, ""), (None, None, "dfs"), (2, None, ""), (None, 2, "dfs"), (1, 1, "bfs")):
+                query = "path from nu%s%s%s into list" % ("" if a is None else " mindepth %d" % a, "" if b is None else " maxdepth %d" % b, " " + mode if mode else "")
+                r = runner.run([query], cwd=w, home=home)
+                res.ev()
+                ctx = {"query": query, "entries": [repr(m) for m in made], "result": r.brief()}
+                if r.verdict != "ok" or r.rc != 0 or r.err:
+                    if r.verdict in ("ok", "busy"):
+                        res.viol("status %s / stderr %r on a readable tree with non-UTF-8 names" % (r.rc, r.err[:200]), ctx)
+                    continue
+                want = sorted((b"nu/" + m).decode("utf-8", "replace") for m in made if in_window(m.count(b"/") + 1, a or 0, b or 0))
+                got = sorted(r.out.decode("utf-8", "replace").split("\0")[:-1]) if r.out else []
+                if got != want:
+                    res.viol("non-UTF-8 names: %d rows for %d in-window entries (lossy spellings differ: %s)" % (
+                        len(got), len(want), sorted(set(got) ^ set(want))[:3]), ctx)
+                    continue
+                res.cover("entry_kinds", "non-utf8-name")
+                if want:
+                    res.nt("nonutf8|%s|%s|%s|%d" % (a, b, mode, len(want)))
         elif job["kind"] == "large":
             name = "big"
             os.mkdir(os.path.join(w, name))
@@ -305,6 +353,8 @@ def main(chk):
     for i in range(2 if quick else 12):
         jobs.append({"id": "large%d" % i, "kind": "large", "seed": job_seed(chk.seed, "C01", "L%d" % i), "files": 3000 if i % 2 == 0 else 700,
                      "dirs": 40 if i % 2 == 0 else 400})
+    for i in range(8 if quick else 120):
+        jobs.append({"id": "nonutf8-%d" % i, "kind": "nonutf8", "seed": job_seed(chk.seed, "C01", "N%d" % i)})
     shapes = enum_shapes(4 if quick else 6)
     per = 4
     for i in range(0, len(shapes), per):
@@ -319,7 +369,7 @@ def main(chk):
         assumptions=["deciding binary built without LTO (otherwise the release profile)",
                      "ground truth = os.lstat walk of the tree after it was built",
                      "rows are mapped to entries by normalising the printed path against the cwd; path spelling is not judged"],
-        require={"modes": 3, "spellings": 5, "entry_kinds": 5},
+        require={"modes": 3, "spellings": 5, "entry_kinds": 8},
         exhaustive={"dir_tree_shapes": len(shapes), "windows": "0..4 x 0..4", "modes": ["bfs", "dfs"],
                     "completed_shapes": chk.counts.get("exhaustive_shapes_done", 0)},
     )
